@@ -125,13 +125,17 @@ pub fn check_hll_image(sk: &HllSketch, model_coupons: Option<&std::collections::
 }
 
 pub fn check_cpc_image(sk: &CpcSketch, model: &CpcModel, st: &mut RunStats) -> Result<(), Violation> {
+    check_cpc_image_seeded(sk, model, 9001, st)
+}
+
+pub fn check_cpc_image_seeded(sk: &CpcSketch, model: &CpcModel, seed: u64, st: &mut RunStats) -> Result<(), Violation> {
     let f = sk.verif_fields();
     let img = lib_call("CpcSketch::serialize", || sk.serialize())?;
     st.lib_calls += 1;
     st.observe(&img);
     let d = sc::cpc::decode(&img).map_err(|e| fail("cpc_rejected", format!("a Java/C++ reader would reject / misread this CPC image (lg_k {}, C {}): {e}", f.lg_k, f.num_coupons)))?;
     check!(d.lg_k == model.lg_k && d.num_coupons as u64 == model.count, "C12.cpc_header", "header lg_k {} C {}; model lg_k {} C {}", d.lg_k, d.num_coupons, model.lg_k, model.count);
-    check!(d.seed_hash == refhash::seed_hash(9001), "C12.cpc_seed_hash", "seed hash {:#x} want {:#x}", d.seed_hash, refhash::seed_hash(9001));
+    check!(d.seed_hash == refhash::seed_hash(seed), "C12.cpc_seed_hash", "seed hash {:#x} want {:#x} (update seed {seed})", d.seed_hash, refhash::seed_hash(seed));
     check!(d.fic == f.first_interesting_column, "C12.cpc_fic", "firstInterestingColumn byte {} vs {}", d.fic, f.first_interesting_column);
     check!(d.implied_len == img.len(), "C12.cpc_length", "image has {} bytes, header implies {}", img.len(), d.implied_len);
     if model.count > 0 {
@@ -222,7 +226,7 @@ impl Scenario for C12 {
             "fi" => (rng.range(3, 8), rng.below(3)),
             _ => (*rng.pick(&[10u64, 25, 100, 200]), 0),
         };
-        let seed = if matches!(fam, "theta" | "bloom" | "cm") && rng.chance(1, 2) { rng.next_u64() } else { 9001 };
+        let seed = if matches!(fam, "theta" | "bloom" | "cm" | "cpc") && rng.chance(1, 2) { rng.next_u64() } else { 9001 };
         let mut cfg = Cfg { fam: fam.to_string(), a, b, seed };
         let mut acts = vec![];
         if fam == "cpc" && rng.chance(1, 250) {
@@ -337,7 +341,8 @@ impl Scenario for C12 {
             }
             "cpc" => {
                 let lg_k = (cfg.a as u8).clamp(4, 22);
-                let mut sk = CpcSketch::new(lg_k);
+                let seed = if refhash::seed_hash(cfg.seed) == 0 { 9001 } else { cfg.seed };
+                let mut sk = CpcSketch::with_seed(lg_k, seed);
                 let mut model = CpcModel::new(lg_k);
                 for a in acts {
                     st.ticks += 1;
@@ -385,24 +390,29 @@ impl Scenario for C12 {
                         }
                         Act::Merge { vals, b } => {
                             let lg2 = (4 + b % 8) as u8;
-                            let mut other = CpcSketch::new(lg2);
+                            let mut other = CpcSketch::with_seed(lg2, seed);
                             let mut om = CpcModel::new(lg2);
                             for &v in vals {
                                 other.update(v);
-                                om.offer(crate::scen::c05::item_row_col(v, lg2, 9001));
+                                om.offer(crate::scen::c05::item_row_col(v, lg2, seed));
                             }
-                            let mut u = CpcUnion::new(model.lg_k);
+                            // the union starts at its own (possibly larger) lg_k and is reduced by its inputs
+                            let union_lg = (model.lg_k + (b >> 8) as u8 % 3).min(26);
+                            let mut u = CpcUnion::with_seed(union_lg, seed);
                             lib_call("CpcUnion::update", || {
                                 u.update(&sk);
                                 u.update(&other);
                             })?;
                             sk = lib_call("CpcUnion::to_sketch", || u.to_sketch())?;
                             // model of the union result (C06's oracle)
-                            let mut lg = model.lg_k;
-                            if om.count > 0 && lg2 < lg {
-                                lg = lg2;
+                            let mut lg = union_lg;
+                            if model.count > 0 {
+                                lg = lg.min(model.lg_k);
                             }
-                            let mut m = crate::model::cpc::fold_matrix(&model.m, lg);
+                            if om.count > 0 {
+                                lg = lg.min(lg2);
+                            }
+                            let mut m = if model.count > 0 { crate::model::cpc::fold_matrix(&model.m, lg) } else { vec![0u64; 1usize << lg] };
                             if om.count > 0 {
                                 for (x, y) in m.iter_mut().zip(crate::model::cpc::fold_matrix(&om.m, lg)) {
                                     *x |= y;
@@ -413,7 +423,7 @@ impl Scenario for C12 {
                             st.fault("cpc_union_result");
                         }
                         Act::Emit { .. } => {
-                            check_cpc_image(&sk, &model, st)?;
+                            check_cpc_image_seeded(&sk, &model, seed, st)?;
                             st.nontrivial = true;
                         }
                         _ => {}
